@@ -478,6 +478,10 @@ impl Ignore {
                     .last()
                     .map_or(self.0.dir.as_path(), |ig| ig.0.dir.as_path());
                 let path_prefix = match strip_prefix("./", dirpath) {
+                    // `path` never begins with `./`, so there is nothing to
+                    // remove when the search was started in `.`. (Removing
+                    // it anyway would eat the dot of a hidden file's name.)
+                    None if dirpath == Path::new(".") => Path::new(""),
                     None => dirpath,
                     Some(stripped_dot_slash) => stripped_dot_slash,
                 };
